@@ -5,6 +5,7 @@ package main
 import (
 	"fmt"
 	"go/constant"
+	"go/token"
 	"go/types"
 	"sort"
 	"strings"
@@ -174,12 +175,22 @@ var neverInline = map[string]bool{
 	"_lister.list": true, "_lister.executeList": true, "_ticker.nextPeriod": true, "_watchSession.connect": true,
 	"listResourceVersion": true, "extractList": true, "InvolvedFilter": true, "Selector": true,
 	"listerBuilder.Client": true, "watcherBuilder.Client": true,
-	"_adapter.adaptObject": true, "_adapter.adaptList": true, "wrapEvent": true, "buildServicesFilter": true,
+	"compareFilterList": true, "_adapter.adaptObject": true, "_adapter.adaptList": true, "wrapEvent": true, "buildServicesFilter": true,
+}
+
+// anchorCtors: the constructors and factory functions of the pinned tree, which the rules name
+// as one step ("call newCache(…)").  A constructor-like helper that is not in this table (a
+// `newXStruct` split out of a constructor) is looked through like any other simple helper.
+var anchorCtors = map[string]bool{
+	"BuildController": true, "BuildHandler": true, "BuildUnitaryHandler": true, "New": true, "NewBuilder": true, "NewClient": true,
+	"NewController": true, "NewEvent": true, "NewListClient": true, "NewMonitor": true, "NewWatchClient": true,
+	"makeResourceListFn": true, "makeResourceWatchFn": true, "newCache": true, "newController": true, "newFilterController": true,
+	"newFilterPublisher": true, "newFilterSubscription": true, "newLister": true, "newListerBuilder": true, "newPublisher": true,
+	"newSubscription": true, "newTicker": true, "newWatchSession": true, "newWatcher": true, "newWatcherBuilder": true,
 }
 
 func neverInlined(g *ssa.Function) bool {
-	n := g.Name()
-	if strings.HasPrefix(n, "new") || strings.HasPrefix(n, "New") || strings.HasPrefix(n, "Build") || strings.HasPrefix(n, "make") {
+	if anchorCtors[g.Name()] {
 		return true
 	}
 	full := fnName(g)
@@ -193,6 +204,9 @@ func simpleHelper(g *ssa.Function, maxBlocks int) bool {
 	if len(g.Blocks) > maxBlocks || neverInlined(g) {
 		return false
 	}
+	if g.Object() != nil && g.Object().Exported() && (hasGo(g) || g.Signature.Recv() == nil) {
+		return false // exported functions and goroutine-starting constructors are API anchors, not helpers
+	}
 	for _, b := range g.Blocks {
 		for _, s := range b.Succs {
 			if s.Dominates(b) {
@@ -201,7 +215,7 @@ func simpleHelper(g *ssa.Function, maxBlocks int) bool {
 		}
 		for _, in := range b.Instrs {
 			switch in.(type) {
-			case *ssa.Go, *ssa.Defer, *ssa.MakeClosure:
+			case *ssa.Defer:
 				return false
 			}
 			_ = in
@@ -393,7 +407,40 @@ func (p *Prog) ownerClosure(run *ssa.Function) map[*ssa.Function]bool {
 	for changed := true; changed; {
 		changed = false
 		for _, f := range cands {
-			if set[f] || f.Parent() != nil {
+			if set[f] {
+				continue
+			}
+			if par := f.Parent(); par != nil {
+				// a closure that its (owned) parent only ever calls or defers itself runs on the same goroutine
+				if !set[par] {
+					continue
+				}
+				ok, n := true, 0
+				for _, sf := range closuresOf(par) {
+					if sf.Fn != f {
+						continue
+					}
+					n++
+					for _, r := range *sf.Mk.Referrers() {
+						switch x := r.(type) {
+						case *ssa.Call:
+							if x.Call.Value != ssa.Value(sf.Mk) {
+								ok = false
+							}
+						case *ssa.Defer:
+							if x.Call.Value != ssa.Value(sf.Mk) {
+								ok = false
+							}
+						case *ssa.DebugRef:
+						default:
+							ok = false
+						}
+					}
+				}
+				if ok && n > 0 {
+					set[f] = true
+					changed = true
+				}
 				continue
 			}
 			cs := p.callersOf(f)
@@ -422,4 +469,324 @@ func (p *Prog) ownedBy(f *ssa.Function, runRel, runName string) bool {
 		return false
 	}
 	return p.ownerClosure(run)[f]
+}
+
+// ---------- functions started or built by a function (closures and named bodies alike) ----------
+
+// subFunc is a function that fn starts with `go`, defers, or builds as a
+// closure, identified by what it does rather than by its compiler-assigned
+// name ("list$2"): turning a closure into a named method, or adding another
+// closure in front of it, does not change which one a rule talks about.
+type subFunc struct {
+	Fn   *ssa.Function
+	Go   *ssa.Go          // non-nil when started by a go statement
+	Mk   *ssa.MakeClosure // non-nil for closures
+	Args []ssa.Value      // for named bodies: the go call's arguments (receiver first)
+}
+
+// outer maps a free variable or parameter of the body to the value it is
+// bound to in the spawning function (nil if v is neither).
+func (s *subFunc) outer(v ssa.Value) ssa.Value {
+	for {
+		u, ok := v.(*ssa.UnOp)
+		if !ok || u.Op != token.MUL {
+			break
+		}
+		v = u.X
+	}
+	switch x := v.(type) {
+	case *ssa.FreeVar:
+		if s.Mk != nil {
+			for i, fv := range s.Fn.FreeVars {
+				if fv == x && i < len(s.Mk.Bindings) {
+					return s.Mk.Bindings[i]
+				}
+			}
+		}
+	case *ssa.Parameter:
+		for i, p := range s.Fn.Params {
+			if p == x && i < len(s.Args) {
+				return s.Args[i]
+			}
+		}
+	}
+	return nil
+}
+
+// storedValue: the single value stored into a local cell (captured variables are cells).
+func storedValue(v ssa.Value) ssa.Value {
+	a, ok := v.(*ssa.Alloc)
+	if !ok {
+		return v
+	}
+	var val ssa.Value
+	n := 0
+	for _, r := range *a.Referrers() {
+		if st, ok := r.(*ssa.Store); ok && st.Addr == a {
+			val = st.Val
+			n++
+		}
+	}
+	if n == 1 {
+		return val
+	}
+	return v
+}
+
+// goBodiesOf lists the functions fn starts with `go` (closures and same-module named functions).
+func goBodiesOf(fn *ssa.Function) []*subFunc {
+	var out []*subFunc
+	for _, b := range fn.Blocks {
+		for _, in := range b.Instrs {
+			g, ok := in.(*ssa.Go)
+			if !ok {
+				continue
+			}
+			if mk, ok := g.Call.Value.(*ssa.MakeClosure); ok {
+				out = append(out, &subFunc{Fn: mk.Fn.(*ssa.Function), Go: g, Mk: mk})
+				continue
+			}
+			if callee := g.Call.StaticCallee(); callee != nil && callee.Blocks != nil {
+				out = append(out, &subFunc{Fn: callee, Go: g, Args: g.Call.Args})
+			}
+		}
+	}
+	return out
+}
+
+// closuresOf lists the closures fn builds (whatever it then does with them).
+func closuresOf(fn *ssa.Function) []*subFunc {
+	var out []*subFunc
+	for _, b := range fn.Blocks {
+		for _, in := range b.Instrs {
+			if mk, ok := in.(*ssa.MakeClosure); ok {
+				sf := &subFunc{Fn: mk.Fn.(*ssa.Function), Mk: mk}
+				for _, r := range *mk.Referrers() {
+					if g, ok := r.(*ssa.Go); ok {
+						sf.Go = g
+					}
+				}
+				out = append(out, sf)
+			}
+		}
+	}
+	return out
+}
+
+// callsIn: static calls in f (not following further calls) whose callee satisfies pred.
+func callsIn(f *ssa.Function, pred func(*ssa.CallCommon) bool) []ssa.CallInstruction {
+	var out []ssa.CallInstruction
+	for _, b := range f.Blocks {
+		for _, in := range b.Instrs {
+			if ci, ok := in.(ssa.CallInstruction); ok && pred(ci.Common()) {
+				out = append(out, ci)
+			}
+		}
+	}
+	return out
+}
+
+func callsNamed(f *ssa.Function, name string) []ssa.CallInstruction {
+	return callsIn(f, func(cc *ssa.CallCommon) bool {
+		g := cc.StaticCallee()
+		return g != nil && fnName(g) == name
+	})
+}
+
+// pickSub returns the one element satisfying pred (nil if none or several).
+func pickSub(subs []*subFunc, pred func(*subFunc) bool) *subFunc {
+	var found *subFunc
+	for _, s := range subs {
+		if pred(s) {
+			if found != nil {
+				return nil
+			}
+			found = s
+		}
+	}
+	return found
+}
+
+// sendsOnField: f contains a send on a channel read from field `field` of its receiver/captured actor.
+func sendsOnField(f *ssa.Function, field string) bool {
+	for _, b := range f.Blocks {
+		for _, in := range b.Instrs {
+			if s, ok := in.(*ssa.Send); ok && strings.HasSuffix(valPath(s.Chan), "."+field) {
+				return true
+			}
+		}
+	}
+	return false
+}
+
+// sliceArg: the argument of a call effect that fills the callee's first slice-typed parameter
+// (the batch a distributor is given), wherever it stands in the parameter list.
+func sliceArg(e *Effect) *Term {
+	if e.Fn != nil {
+		for i, p := range e.Fn.Params {
+			if _, ok := p.Type().Underlying().(*types.Slice); ok && i < len(e.Args) {
+				return e.Args[i]
+			}
+		}
+	}
+	if len(e.Args) > 1 {
+		return e.Args[1]
+	}
+	return &Term{K: "none"}
+}
+
+// findLoopsDeep: the loops of fn, and — when a loop has been moved into a private helper that fn
+// calls exactly once, outside any loop — that helper's loops marked with the call (Loop.Via), so
+// that regions are walked across the two frames.
+func findLoopsDeep(p *Prog, fn *ssa.Function) []*Loop {
+	out := findLoops(fn)
+	own := p.ownerClosure(fn)
+	count := map[*ssa.Function]int{}
+	var order []*ssa.Call
+	for _, b := range fn.Blocks {
+		for _, in := range b.Instrs {
+			call, ok := in.(*ssa.Call)
+			if !ok {
+				continue
+			}
+			g := call.Call.StaticCallee()
+			if g == nil || g == fn || g.Blocks == nil || !own[g] || neverInlined(g) || inLoop(fn, b) {
+				continue
+			}
+			count[g]++
+			order = append(order, call)
+		}
+	}
+	for _, call := range order {
+		g := call.Call.StaticCallee()
+		if count[g] != 1 {
+			continue
+		}
+		for _, l := range findLoops(g) {
+			l.Via = call
+			out = append(out, l)
+		}
+	}
+	return out
+}
+
+// returnedClosure: the one closure fn builds and returns (nil if none or several).
+func returnedClosure(fn *ssa.Function) *ssa.Function {
+	var found *ssa.Function
+	n := 0
+	for _, sf := range closuresOf(fn) {
+		for _, r := range *sf.Mk.Referrers() {
+			ret := false
+			switch x := r.(type) {
+			case *ssa.Return:
+				ret = true
+			case *ssa.MakeInterface, *ssa.ChangeType:
+				for _, r2 := range *x.(ssa.Value).Referrers() {
+					if _, ok := r2.(*ssa.Return); ok {
+						ret = true
+					}
+				}
+			}
+			if ret {
+				found = sf.Fn
+				n++
+			}
+		}
+	}
+	if n == 1 {
+		return found
+	}
+	return nil
+}
+
+// closureArgOf: the one closure fn passes to a call of a function whose name ends in suffix
+// (time.AfterFunc, sort.Slice), directly or after a conversion.
+func closureArgOf(fn *ssa.Function, suffix string) *ssa.Function {
+	var found *ssa.Function
+	n := 0
+	hosts := []*ssa.Function{fn}
+	if curProg != nil {
+		for g := range curProg.ownerClosure(fn) { // private helpers only fn calls
+			if g != fn && g.Parent() == nil {
+				hosts = append(hosts, g)
+			}
+		}
+	}
+	var all []*subFunc
+	for _, h := range hosts {
+		all = append(all, closuresOf(h)...)
+	}
+	for _, sf := range all {
+		var uses []ssa.Instruction
+		for _, r := range *sf.Mk.Referrers() {
+			uses = append(uses, r)
+			if v, ok := r.(ssa.Value); ok {
+				switch r.(type) {
+				case *ssa.MakeInterface, *ssa.ChangeType:
+					uses = append(uses, *v.Referrers()...)
+				}
+			}
+		}
+		for _, u := range uses {
+			if ci, ok := u.(ssa.CallInstruction); ok {
+				if g := ci.Common().StaticCallee(); g != nil && strings.HasSuffix(fnName(g), suffix) {
+					found = sf.Fn
+					n++
+				}
+			}
+		}
+	}
+	if n == 1 {
+		return found
+	}
+	return nil
+}
+
+// inlineOwnedLoopHelpers adds to inl the private helpers of fn (called only from fn's own
+// goroutine, by plain calls) that contain loops and are called outside the given loop: a tail
+// loop moved into `drain()` is then walked in place (its back-edge ends the path as "cycle",
+// exactly as the same loop written inline does).
+func inlineOwnedLoopHelpers(p *Prog, fn *ssa.Function, except *Loop, inl map[*ssa.Function]bool) {
+	own := p.ownerClosure(fn)
+	for _, b := range fn.Blocks {
+		if except != nil && except.fn() == fn && except.Body[b] {
+			continue
+		}
+		for _, in := range b.Instrs {
+			call, ok := in.(*ssa.Call)
+			if !ok {
+				continue
+			}
+			g := call.Call.StaticCallee()
+			if g == nil || g == fn || g.Blocks == nil || !own[g] || neverInlined(g) || len(findLoops(g)) == 0 {
+				continue
+			}
+			if except != nil && except.fn() == g {
+				continue
+			}
+			simple := true
+			for _, gb := range g.Blocks {
+				for _, gi := range gb.Instrs {
+					switch gi.(type) {
+					case *ssa.Go, *ssa.Defer, *ssa.MakeClosure:
+						simple = false
+					}
+				}
+			}
+			if simple {
+				inl[g] = true
+			}
+		}
+	}
+}
+
+func hasGo(g *ssa.Function) bool {
+	for _, b := range g.Blocks {
+		for _, in := range b.Instrs {
+			if _, ok := in.(*ssa.Go); ok {
+				return true
+			}
+		}
+	}
+	return false
 }
